@@ -13,12 +13,30 @@ def check_c08(ctx):
     docs = gen_docs(ctx, "MC_Doc_sim_ext.cfg", simulate=n) + gen_docs(ctx, "MC_Doc_sim_canonb.cfg", simulate=n // 2) \
         + gen_docs(ctx, "MC_Doc_sim_extempty.cfg", simulate=n // 3) + gen_docs(ctx, "MC_Doc_ref3s.cfg", max_n=3000 if quick else 60000)
     docs = [d for d in docs if d["pred"]["valid"]]
+    # the standard definitions of the specification (CookConvert!StdDefs) measure the amounts, not the library's own ratios
+    import json
+    rc = core.run_tlc(ctx, "MC_Convert", "MC_Convert.cfg", workers=8, timeout=3000, want_replay=False)
+    std = None
+    for line in rc.printed:
+        if line.startswith('<<"STD", '):
+            std = json.loads(json.loads(line[len('<<"STD", '):].rstrip()[:-2]))
+    if std is None:
+        raise core.ToolError("MC_Convert did not print the standard definitions")
+    pstd = os.path.join(ctx.work, "std.json")
+    json.dump(std, open(pstd, "w"))
+    # units the walks do not use: SI-prefixed ones, whose ratios the library derives
+    allext = ["MODIFIERS", "ALIAS", "ADVANCED_UNITS", "MODES", "INLINE", "RANGE", "TIMER_REQ", "INTERMEDIATE"]
+    for u in ["dl", "cl", "dag", "dal", "hg", "mg", "dm", "km", "ml", "kg", "fl oz", "pint", "lb"]:
+        for v in ["2", "=2", "1-3", "0.5"]:
+            docs.append(dict(text=f"@x{{{v}%{u}}} and @y{{3%{u}}}\n", ext=allext, conv="bundled",
+                             pred=dict(valid=True, model=dict(igr=[dict(q=dict(t="q", fixed=v.startswith("="))), dict(q=dict(t="q", fixed=False))],
+                                                              cw=[], tm=[], servings=[]))))
     rnd = random.Random(ctx.seed)
     factors = ["0.3333333333333333", "0.5", "1", "1.5", "2", "10"] + ([] if quick else [repr(rnd.uniform(0.01, 50)) for _ in range(6)] + ["1e-3", "1e6"])
     pin = os.path.join(ctx.work, "s_in.ndjson")
     pout = os.path.join(ctx.work, "s_obs.ndjson")
     core.write_ndjson(pin, docs)
-    core.run_harness(ctx, ["scale", "--in", pin, "--out", pout, "--factors", ",".join(factors)])
+    core.run_harness(ctx, ["scale", "--in", pin, "--out", pout, "--factors", ",".join(factors), "--std", pstd])
     obs = core.read_ndjson(pout)
     nrec, bad, _ = core.run_judge(ctx, "Trace_Scale", pout)
     bad.sort(key=lambda b: len(obs[b[0] - 1]["text"]))
